@@ -178,7 +178,7 @@ def obligations(tier):
                                             stubs=dict(hals_nnls=nn_stub("HALS", holder), fista=nn_stub("FISTA", holder), active_set_nnls=nn_stub("ASET", holder))),
                 tk_post, dict(order=N, core_solver=algo), "sign invariant preserved by a sweep and returned at every exit", side_nonzero=True)
     # ====================================================================== PARAFAC2 line search: iterates clipped on non-negative modes
-    for nnm in ([0], [2], [0, 2], (0, 2), {0, 2}, (2,)):   # (the declaration may be a list, a tuple or a set)
+    for nnm in ([0], [2], [0, 2], (0, 2), {0, 2}, (2,), "all"):   # (the declaration may be a list, a tuple, a set - or the documented string 'all')
         def setup(S):
             K = atom("K")
             return dict(_S=S, Xs=[S.input(f"X{i}", [atom(f"J{i}"), K]) for i in range(2)], w=S.input("w", [R], nonneg=True),
@@ -195,8 +195,9 @@ def obligations(tier):
                     return ls.line_step(8, list(I["Xs"]), list(I["fl"]), I["w"], list(I["fs"]), list(I["P"]), I["err"])
             f, p, e = _noval(p2t, go)
             return list(f)
-        add("_parafac2:_BroThesisLineSearch.line_step", f"nn_modes={type(nnm).__name__} {sorted(nnm)}", setup, call,
-            lambda S, I, r, nnm=nnm: [(f"mode {m} of the iterate returned by the line search (accepted or rejected) >= 0", S.is_nonneg(r[m]), True) for m in sorted(nnm)],
+        clipped = [0, 2] if nnm == "all" else sorted(nnm)     # (mode 1 cannot be constrained by the ALS algorithm, as documented: 'all' clips the modes that can)
+        add("_parafac2:_BroThesisLineSearch.line_step", f"nn_modes={type(nnm).__name__} {nnm if nnm == 'all' else sorted(nnm)}", setup, call,
+            lambda S, I, r, clipped=clipped: [(f"mode {m} of the iterate returned by the line search (accepted or rejected) >= 0", S.is_nonneg(r[m]), True) for m in clipped],
             dict(nn_modes=str(nnm)), "line-search iterates are clipped on the non-negative modes")
     # ====================================================================== callee contracts used above, discharged here too: the inner NNLS solvers return
     # entries >= eps >= 0 (the same loop-cut bodies as C13, E1-dense + z3 at enumerated sizes; only the sign clause is claimed under C10)
